@@ -166,9 +166,12 @@ def make_case(rng, with_faults):
         code = [m["name"] for m in meta if not m["data"]]
     else:
         src, meta = gen.gen_asm_source(rng, random_bytes_p=rng.choice((0.0, 0.3, 0.6, 1.0)))
-        elf = gen.assemble(src)
+        latin1 = rng.random() < 0.04 and "\u00e9" in src
+        elf = gen.assemble(src, encoding="latin-1" if latin1 else "utf-8")  # latin-1: symbol names that are not valid UTF-8
         if elf is None:
             return None
+        if latin1:
+            shape["symbols"] = "non-utf8"
         shape["obj"] = f"as:{len(meta)}sec:{'raw' if any(m['raw'] and not m['data'] for m in meta) else 'text'}{':data' if any(m['data'] for m in meta) else ''}"
         if rng.random() < 0.08 and len(meta) >= 2:
             sc = gen.scatter_sections(elf, [m["name"] for m in meta], rng)
@@ -258,6 +261,13 @@ def make_case(rng, with_faults):
         doc = {"pattern": [rng.choice(["mov", "add", "nop", "push", "bad", "ret"])]}
         if sections is not None:
             doc = {"config": {"sections": list(sections)}, **doc}
+    if (not any(d[1] for d in dec) and rng.random() < 0.6) or rng.random() < 0.04:
+        # a rule that also matches an empty stream (nothing disassembled: data only, empty or absent sections)
+        keepcfg = doc.get("config")
+        doc = {"pattern": rng.choice([[{"nop": {"times": {"min": 0, "max": 2}}}], [{"$or": ["fxsave", "vpxor"], "times": {"min": 0, "max": 1}}], [{"fxsave": {"times": 0}}]])}
+        if keepcfg:
+            doc = {"config": keepcfg, **doc}
+        shape["rule"] = "matches-empty"
     if sections is None and "config" in doc:
         doc["config"].pop("sections", None)
     # a sibling that a glob reading of the name would pick up instead (x[1]?.o matches x1z.o, star*.o matches starzz.o)
@@ -450,7 +460,7 @@ def evaluate_case(case, runner, seed=0):
                               "detail": f"`{' '.join(argv)}` exits {rc} ({err.strip()[:120]}) but the binary route returned {_short(got)}; JASM ran {info['argv'][-1:]}",
                               "got": _short(got), "expected": "an exception"})
             continue
-        runner._put("ref.s", text)
+        runner._put("ref.s", gen.LAST_OBJDUMP_STDOUT)  # byte for byte what objdump printed
         ref_op = {kk: vv for kk, vv in op.items() if kk not in ("faults", "_main")}
         ref_op.update({"input": "ref.s", "type": "assembly"})
         ref = runner.reference(ref_op, seed)[0]
